@@ -114,6 +114,11 @@ def search(job):
             ({"properties": {"k": {"$ref": "http://ex.org/item.json"}}}, {"properties": {"k": {"type": "boolean"}}}),
             ({idk: "http://ex.org/root.json", "definitions": {"n": {"type": "integer"}}, "properties": {"k": {"$ref": "#/definitions/n"}, "l": {"$ref": "root.json#/definitions/n"}}},
              {"properties": {"k": {"type": "integer"}, "l": {"type": "integer"}}}),
+            # the same reference applied twice to the same instance by sibling keywords, the first through is_valid()
+            ({"definitions": {"p": {"type": "integer"}}, "properties": {"k": {"not": {"$ref": "#/definitions/p"}, "allOf": [{"$ref": "#/definitions/p"}]}}},
+             {"properties": {"k": {"not": {"type": "integer"}, "allOf": [{"type": "integer"}]}}}),
+            ({"definitions": {"p": {"type": "integer"}}, "properties": {"k": {"oneOf": [{"$ref": "#/definitions/p"}, {"type": "string"}], "anyOf": [{"$ref": "#/definitions/p"}]}}},
+             {"properties": {"k": {"oneOf": [{"type": "integer"}, {"type": "string"}], "anyOf": [{"type": "integer"}]}}}),
             # recursion through '#' and through a definition
             ({"properties": {"k": {"$ref": "#"}}, "type": "object"}, None),
             ({"definitions": {"node": {"type": "object", "properties": {"next": {"$ref": "#/definitions/node"}, "v": {"type": "integer"}}}}, "$ref": "#/definitions/node"}, None),
